@@ -1,6 +1,7 @@
 package main
 
 import (
+	"bytes"
 	"context"
 	"fmt"
 	"io"
@@ -25,6 +26,8 @@ type c15cEnv struct {
 	mu     sync.Mutex
 	events chan string
 	point  string
+	first  bool // the handler reads one request message before it waits (gRPC-web over HTTP/1: net/http
+	// only watches the connection once the request body has been consumed)
 }
 
 var c15cenv *c15cEnv
@@ -60,6 +63,9 @@ func c15cSetup() *c15cEnv {
 			return dynamicpb.NewMessage(out), nil
 		},
 		Stream: func(method string, in, out protoreflect.MessageDescriptor, ss grpc.ServerStream) error {
+			if e.first {
+				ss.RecvMsg(dynamicpb.NewMessage(in))
+			}
 			e.events <- "entered"
 			switch e.point {
 			case "ctx":
@@ -138,6 +144,7 @@ func c15cRun(o *out, input string) {
 		<-e.events
 	}
 	e.point = point
+	e.first = front == "web" && shape != "unary"
 	ctx, cancel := context.WithCancel(context.Background())
 	defer cancel()
 	msgd := testpb.File_larking_api_test_proto.Messages().ByName("Message")
@@ -162,6 +169,20 @@ func c15cRun(o *out, input string) {
 				// do not read: the server's sends fill the flow-control window and block
 			}
 		}
+	case "web":
+		// gRPC-web over HTTP/1.1: one frame carrying an empty message, Content-Length known
+		name := map[string]string{"unary": "Unary", "server": "Server"}[shape]
+		req, _ := http.NewRequestWithContext(ctx, "POST", e.lb.url+"/verif.c15c.Csvc/"+name, bytes.NewReader([]byte{0, 0, 0, 0, 0}))
+		req.Header.Set("Content-Type", "application/grpc-web+proto")
+		go func() {
+			rsp, err := http.DefaultTransport.RoundTrip(req)
+			if err == nil {
+				if point == "send" {
+					<-ctx.Done() // never read the body
+				}
+				rsp.Body.Close()
+			}
+		}()
 	case "http":
 		path := map[string]string{"unary": "/c15/unary", "client": "/c15/client", "server": "/c15/server"}[shape]
 		var body io.Reader
@@ -215,6 +236,7 @@ func c15cGen(o *out) {
 		// "http client ctx" is not a scenario: net/http does not watch an HTTP/1 connection whose
 		// request body is unread, so the context is not cancelled until the handler reads
 		"http unary ctx", "http client recv", "http server ctx", "http server send",
+		"web unary ctx", "web server ctx", "web server send",
 	} {
 		o.count("cancel/" + strings.Fields(c)[0])
 		c15cRun(o, "C15C "+c)
